@@ -19,8 +19,9 @@ CHECKS = {
 
     "C02": dict(
         technique="runtime monitoring: monitors on every Av query method + hook on Av._ensure_level (inside the critical section) "
-                  "decided by brute-force avoiders; random operation histories with resumed iterators, clear_cache, other classes",
-        text="Every query issued in ~1400 (quick) random/enumerated histories, and every level the cache ever built, is compared with "
+                  "decided by brute-force avoiders; random operation histories with resumed iterators, clear_cache, other classes and "
+                  "queries aborted by exceptions injected at sys.monitoring failpoints inside permset.py",
+        text="Every query issued in ~1400 (quick) random/enumerated histories (incl. ~6% aborted queries after which every later answer must still be right), and every level the cache ever built, is compared with "
              "brute-force avoiders of the raw basis (classical by definition, mesh by cell geometry) up to length 7/6 (8/7 thorough). "
              "is_subclass: exact criterion for classical bases, bounded refutation with mesh bases. Exploration only.",
         note="trusted: vf/oracle/{classical,mesh}.py, vf/avmodel.py; lengths above the bound are not judged; known findings K4/K5 classified by mechanism",
@@ -81,7 +82,8 @@ CHECKS = {
     ),
     "C09": dict(
         technique="runtime monitoring: generator proxies / recorders on generators, rank, unrank, standardisation, notations and mesh rank/unrank, "
-                  "decided by itertools order and definitional ranking; memoisation history forcing LRU eviction",
+                  "decided by itertools order and definitional ranking; memoisation history forcing LRU eviction; several live generators "
+                  "advanced in interleaved order",
         text="Exhaustive S_0..S_7 (S_8 thorough) for rank/unrank/notations, every first(c) for c<160 and around level boundaries, every mesh "
              "shading of length <=2, random ranks up to length 20, heterogeneous standardisation inputs, 12000-key eviction history. Exploration only.",
         note="from_string/str round trip only for length <= 10, from_integer only where an integer can spell the permutation",
@@ -97,7 +99,8 @@ CHECKS = {
     ),
     "C11": dict(
         technique="runtime monitoring: recorders on ~75 statistic/listing methods decided by definitional oracles; the named statistics matched by "
-                  "NAME; distribution and bijection tools decided by re-evaluating their defining identity on the supplied data",
+                  "NAME; distribution and bijection tools decided by re-evaluating their defining identity on the supplied data; aliasing "
+                  "history (returned containers are emptied by the caller, then every statistic is asked again)",
         text="Exhaustive S_0..S_6 (S_7 thorough), random longer permutations for the cheap statistics, 30 classes for distributions, 200 "
              "bijections (structured, random, partial, empty), equidistribution on class pairs. Known findings K1 (LIS is longest run) and K2 "
              "(layers) are recognised by buggy-model replay only. Exploration only.",
@@ -116,7 +119,7 @@ CHECKS = {
     "C13": dict(
         technique="runtime monitoring: recorders on the finiteness / polynomial / insertion-encoding verdict functions (every binding) and Av "
                   "wrappers decided by the structure theorems written with forbidden patterns; enumeration-consistency oracle; memo-table state "
-                  "check at the end of each history; CLI output captured",
+                  "check at the end of each history; Av-object histories around clear_cache / garbage collection; CLI output captured",
         text="Every basis of <=2 elements from S_1..S_3 (S_4 thorough), 2000 random bases up to length 6 and single-witness bases; 9 container "
              "forms incl. one-shot iterators, 8 symmetries, call histories through the process-wide memos, Erdos-Szekeres / Fibonacci "
              "consistency with brute-force counts up to N=8. Exploration only.",
@@ -137,7 +140,7 @@ CHECKS = {
                   "bound and decided by word-level semantics (decode -> contain); own product search for equivalence, path counting and cycle "
                   "detection on the observed transition tables",
         text="All bases {b}, b in S_1..S_3, sampled S_4 and pairs (all of S_4 + pairs thorough), every M-word of length <=8 (11), db vs scratch "
-             "vs union equivalence, has_finite_pinperms vs cycle detection. Words beyond the bound only through equivalence. Exploration only.",
+             "vs union equivalence, bases led by a permutation without pin words (length 6), has_finite_pinperms vs cycle detection. Words beyond the bound only through equivalence. Exploration only.",
         note="trusted: vf/oracle/{automata,pins}.py; automata-lib objects are only read (states, transitions, initial, final)",
         ref="DESIGN.md §4 C15",
     ),
@@ -165,7 +168,7 @@ CHECKS = {
     "C18": dict(
         technique="runtime monitoring: recorders on the shading-lemma tests, the table, point insertion, shade and ascii_plot; every positive "
                   "verdict / insertion result decided semantically over ALL permutations up to length N by cell-geometry containment; "
-                  "independent plot parser",
+                  "independent plot parser; derived-object history (patterns obtained through shade/add_point/rotate are queried after their parents)",
         text="Every mesh pattern of length <=2 with every cell and adjacent pair, 1600 sparse length-3 patterns (20000 + length 4 thorough), "
              "N=6 (7). Only soundness of positive lemma verdicts is judged. Exploration only.",
         note="trusted: vf/oracle/mesh.py",
@@ -182,10 +185,10 @@ CHECKS = {
     ),
     "C20": dict(
         technique="runtime monitoring: operation histories against a last-write model in temp directories, sys.addaudithook recorder of "
-                  "file opens, DFA store histories decided by own language-equivalence search and word semantics, shipped data verified "
+                  "file opens, DFA store histories (chdir, memo clearing, failpoints inside the automaton computation, threads storing "
+                  "different permutations) decided by own language-equivalence search and word semantics, shipped data verified "
                   "against independent property definitions",
-        text="200 (2000) file histories with overwrites, deletions and seven kinds of corruption; 40 (300) DFA-store histories with chdir and "
-             "memo clearing; all 28 shipped files: keys, partition, no duplicates, good = property up to length 6 (quick) / full length "
+        text="200 (2000) file histories with overwrites, deletions and seven kinds of corruption; 96 (600) DFA-store histories; all 28 shipped files: keys, partition, no duplicates, good = property up to length 6 (quick) / full length "
              "(thorough). Exploration only.",
         note="the two data files emptied by the environment must read as invalid and are otherwise skipped",
         ref="DESIGN.md §4 C20",
